@@ -1,6 +1,7 @@
 import Enc.Model.Json.Buf
 import Enc.Spec.Json.Render
 import Enc.Lemmas.JsonBuf
+import Enc.Lemmas.JsonEncFloat
 /-!
 # C15 — json.Append is oblivious to the destination's length and capacity
 Property theorems only (proofs in Enc/Lemmas/JsonBuf.lean).
@@ -39,5 +40,13 @@ theorem grow_irrelevant (g1 g2 : Nat → Nat → Nat) (html : Bool) (s : Slice) 
 
 /-- the base64 length arithmetic of encodeBytes: `EncodedLen(len(v))` is the length actually written -/
 theorem b64_length (v : Bytes) : (b64 v).length = b64Len v.length := Lemmas.JsonBuf.b64_length v
+
+/-- float leaves (the `JV` universe has none): encodeFloat keeps the destination's bytes whatever they end with — its
+`e-0d` clean-up indexes the whole buffer from the end but, guarded by `fmt == 'e'` and strconv's shape, never reaches
+the caller's bytes; the appended part is what is appended to the empty destination (Props/C01Float.lean). -/
+theorem encodeFloat_oblivious (dst digits : Bytes) (fmt : Model.Json.FFmt) (h : Model.Json.StrconvShape fmt digits) :
+    (Model.Json.encodeFloatFmt dst fmt digits).take dst.length = dst ∧
+    (Model.Json.encodeFloatFmt dst fmt digits).drop dst.length = Model.Json.encodeFloatFmt [] fmt digits :=
+  Lemmas.JsonEncFloat.encodeFloatFmt_oblivious dst digits fmt h
 
 end Enc.Props.C15
